@@ -91,7 +91,7 @@ Definition cycle_params (nodes : list node) (act : list name) : list name :=
       (n_inputs n)) an) [].
 
 Definition interrupt_produced (an : list node) (p : name) : bool :=
-  existsb (fun n => is_interrupt n && pos_in p (n_outputs n)) an.
+  existsb (fun n => is_interrupt_node n && pos_in p (n_outputs n)) an.
 
 (* _compute_entrypoints *)
 Definition entrypoints (nodes : list node) (act : list name) (bound : dict val) : list (name * list name) :=
